@@ -67,6 +67,8 @@ index_decode(void *coder_ptr, const lzma_allocator *allocator,
 	const size_t in_start = *in_pos;
 	lzma_ret ret = LZMA_OK;
 
+	VERIF_VISIT(VERIF_D_INDEX_DEC_SEQ, coder->sequence);
+
 	while (*in_pos < in_size)
 	switch (coder->sequence) {
 	case SEQ_INDICATOR:
